@@ -33,7 +33,7 @@ Fixpoint c01_mon (acked : bool) (tr : trace) : bool :=
       | _, _ => c01_mon acked r
       end
   end.
-Definition C01_ok (tr : trace) : bool := c01_mon false tr.
+Definition C01_quiet (tr : trace) : bool := c01_mon false tr.
 
 (* ---------- C04: a state is written only while every background thread is quiescent or has exited;
    a runtime save happens inside an acknowledged pause with the clock frozen; afterwards the system
@@ -60,6 +60,10 @@ Fixpoint c04_mon (acked saving : bool) (started joined : nat) (tr : trace) : boo
       end
   end.
 Definition C04_ok (tr : trace) : bool := c04_mon false false 0 0 tr.
+
+(* C01: quiescence while acknowledged; and the beginning of a runtime save counts as an acknowledgement, so a save
+   may only begin inside an acknowledged pause (the C04 rule) *)
+Definition C01_ok (tr : trace) : bool := C01_quiet tr && C04_ok tr.
 
 (* ---------- C09: per component protocol and thread affinity ---------- *)
 Inductive comp := CompAgent | CompEnv | CompTrainer.
